@@ -89,6 +89,7 @@ type queue struct {
 	metaPageFct     page.Factory    // meta page factory
 	notEmpty        *sync.Cond      // not empty condition
 	rwMutex         *sync.RWMutex
+	putMutex        sync.Mutex // serializes appenders, sequence order must be the allocated data order
 	dirPath         string       // path for queue file
 	appendedSeq     atomic.Int64 // current written sequence
 	dataPageIndex   int64
@@ -192,6 +193,12 @@ func (q *queue) Put(data []byte) error {
 		// if message size > data page size, return err
 		return ErrExceedingMessageSizeLimit
 	}
+
+	// alloc/copy/persist of one message must not interleave with another appender:
+	// after reopen the write cursor is restored from the message of the last sequence(initDataPageIndex),
+	// if an appender which allocated earlier gets the later sequence, next message overwrites existing data.
+	q.putMutex.Lock()
+	defer q.putMutex.Unlock()
 
 	dataPageIndex, dataPage, offset, err := q.alloc(dataLength)
 	if err != nil {
